@@ -23,7 +23,7 @@ LEVEL = ("For generated coupled aggregates of 2-4 sites (the tensor also with a 
          "sum_n |c_na|^2 |c_nb|^2 (1+coth(w/2kT)) J_n(w) within the stated error model; the Foerster rate matrix has zero "
          "column sums and obeys detailed balance with respect to E_n - lambda_n within the stated error model; spectral densities are odd and the "
          "Fourier-transformed correlation function obeys C(-w) = exp(-w/kT) C(w)."
-         " Later additions: rates and tensors computed while other units are current; composite bath functions; operator-form tensor converted inside the eigenbasis; spectral densities with a temperature of their own.")
+         " Later additions: rates and tensors computed while other units are current; composite bath functions; operator-form tensor converted inside the eigenbasis; spectral densities with a temperature of their own. Round five: densities on a caller's frequency axis without a point at zero; composite densities; deterministic grid of bath functions.")
 NOTE = ("Class-3 clauses use explicit error models, calibrated on ~650 state pairs of the unchanged tree: golden rule: "
         "allowed = 3 % (tensor: 6 %) + 0.4*dt*Re C(0)/k (endpoint term of the discrete half-Fourier transform; worst observed ratio "
         "to the model 0.25/0.4), asserted where allowed <= 25 %; Foerster detailed balance: allowed = 1 % + 0.006*(M/k_ab + "
